@@ -6,6 +6,7 @@
    and passes the five-equation check.  Rejection of mismatching statements / edited fields: correspondence + sweep
    (all subsets U for n <= 3 / 5). *)
 From ZK Require Import Cl ClArith ClSig ClMore ClGroup ClBoudot ModelLemmas ClSpok ClSpok2 ClSpok3.
+From ZK Require Import ClConsts ClExample.
 
 Theorem C15_spok_accepts_ties_Ce :
   forall CS BP p ck pk bases rmsgs U nsm,
@@ -104,3 +105,14 @@ Check (C15_spok_complete :
   spok_gen CS BP sg ck pk bases msgs U ds = Ok (p, ds') ->
   spok_verify CS BP p ck pk bases (map (at_ msgs) (revealed_of U 0 (length msgs))) U (length msgs) = Ok true).
 Print Assumptions C15_spok_complete.
+
+(* non-vacuity: a concrete run of the implementation (micro suite; key, signature and draws copied from the harness log) meets every
+   premise of spok_complete, including the dynamic one (spok_gen returns a proof) *)
+Theorem C15_spok_complete_applies :
+  exists p ds', spok_gen micro_suite boudot_params x_sg x_ck x_pk x_bases x_msgs x_U x_draws = Ok (p, ds') /\
+  spok_verify micro_suite boudot_params p x_ck x_pk x_bases (map (at_ x_msgs) (revealed_of x_U 0 (length x_msgs))) x_U (length x_msgs) = Ok true.
+Proof. exact spok_complete_applies. Qed.
+Check (C15_spok_complete_applies :
+  exists p ds', spok_gen micro_suite boudot_params x_sg x_ck x_pk x_bases x_msgs x_U x_draws = Ok (p, ds') /\
+  spok_verify micro_suite boudot_params p x_ck x_pk x_bases (map (at_ x_msgs) (revealed_of x_U 0 (length x_msgs))) x_U (length x_msgs) = Ok true).
+Print Assumptions C15_spok_complete_applies.
